@@ -308,11 +308,20 @@ class Synth(object):
             self.row('SM_AH', Act_ID=aid, SM_ID=smid)
             self.row('SM_MOAH', Act_ID=aid, SM_ID=smid, SMstt_ID=sid)
             if st.get('via') is not None:
-                # the transition into the state, taken from the first state on event `via`
+                # the transition into the state on event `via`: taken from the first state, or a creation transition
                 tid = self.id()
-                self.row('SM_SEME', SMstt_ID=first, SMevt_ID=evt[st['via']], SM_ID=smid, SMspd_ID=spd)
                 self.row('SM_TXN', Trans_ID=tid, SM_ID=smid, SMstt_ID=sid, SMspd_ID=spd)
-                self.row('SM_NSTXN', Trans_ID=tid, SM_ID=smid, SMstt_ID=first, SMevt_ID=evt[st['via']], SMspd_ID=spd)
+                if st.get('creation'):
+                    self.row('SM_CRTXN', Trans_ID=tid, SM_ID=smid, SMevt_ID=evt[st['via']], SMspd_ID=spd)
+                else:
+                    self.row('SM_SEME', SMstt_ID=first, SMevt_ID=evt[st['via']], SM_ID=smid, SMspd_ID=spd)
+                    self.row('SM_NSTXN', Trans_ID=tid, SM_ID=smid, SMstt_ID=first, SMevt_ID=evt[st['via']], SMspd_ID=spd)
+                if 'tbody' in st:
+                    # the action of the transition
+                    taid = self.id()
+                    self.row('SM_ACT', Act_ID=taid, SM_ID=smid, Suc_Pars=1, Action_Semantics_internal=st['tbody'], Descrip='', Dialect=0)
+                    self.row('SM_AH', Act_ID=taid, SM_ID=smid)
+                    self.row('SM_TAH', Act_ID=taid, SM_ID=smid, Trans_ID=tid)
 
     def func(self, f):
         sid = self.id()
